@@ -789,7 +789,9 @@ Definition c06_hinfo (q : bool) (tok : text) : outcome bytes :=
   let line := [46; 32; 48; 32; 73; 78; 32; 72; 73; 78; 70; 79; 32] ++ (if q then [ch_quote] else []) ++ tok ++ tail in
   do ts <- tokenize line;
   match ts with
-  | [_; _; _; _; _; _] =>
+  | [_; _; _; _; t5; _] =>
+      (* ZoneRecordData::scan first looks for the generic-form marker `\#` *)
+      if is_marker t5 then Err E_generic else
       do x <- scan_octets_text q (tok ++ tail);
       if charstr_latest <? len (fst x) then Err E_charstr else Ok (fst x)
   | _ => Err E_tokens
